@@ -61,6 +61,12 @@ def sym_function(prog: Prog, view, fn, label=None, **kw):
     label = label or f"{view.backend}|{fn}|exec"
     try:
         out, n, ex = view.sym_scalar(prog.ctx, fn, **kw)
+        if not kw and fn not in ("init_state_values", "init_parameter_values") and prog.validate_encoders:
+            key = (view.backend, fn, id(view))
+            jax_skip = view.backend == "jax" and (fn not in ("rhs", "monitor_values") or int(str(int.from_bytes(prog.pid.encode(), "big"))[-3:]) % 8 != 0)
+            if key not in prog._validated and not jax_skip:
+                prog._validated.add(key)
+                validate_encoding(prog, view, fn, out)
         return out, n, ex
     except ArtefactError as e:
         def confirm():
@@ -471,3 +477,47 @@ def check_missing_values(prog: Prog, view, full: refsem.Model, wanted: dict, res
 
         re_ = (lambda inputs, name=name: refsem.numeric(("var", name), env_from_inputs(full, inputs), full))
         prog.eq(label, ev.dom + sub_hyps, gen, ref, gen_eval=ge, ref_eval=re_, what=f"{fn}[{idx}] vs full-model value of {name}")
+
+
+# ----------------------------------------------------------------------------
+# encoder validation ("validate the translator", guidance): the symbolic term of every slot is
+# evaluated at a concrete point and compared with the really executed artefact.
+# ----------------------------------------------------------------------------
+def sample_inputs(view, m: refsem.Model | None, k=0):
+    base = [0.7, 1.3, 0.45, 2.1, 0.9, 1.7, 0.3, 1.1]
+    inp = {"t": 0.6 + 0.25 * k, "dt": 0.125}
+    for i, s in enumerate(sorted(view.index_map("state"))):
+        inp[f"s_{s}"] = base[(i + k) % len(base)] + 0.05 * i
+    for i, p in enumerate(sorted(view.index_map("parameter"))):
+        inp[f"p_{p}"] = base[(i + 3 + k) % len(base)] + 0.03 * i
+    for i, p in enumerate(sorted(view.index_map("missing"))):
+        inp[f"m_{p}"] = base[(i + 5 + k) % len(base)]
+    return inp
+
+
+def validate_encoding(prog: Prog, view, fn, slots, m=None, points=1):
+    """Harness self-check: symbolic term vs real execution at concrete points.  A disagreement means MY
+    encoder (pysym / irsym tables) is wrong: it is recorded as a harness error, never as a violation."""
+    from .smt import eval_term, EvalError
+    from .core import differs
+
+    for k in range(points):
+        inp = sample_inputs(view, m, k)
+        try:
+            real = view.concrete(fn, inp)
+        except Exception:
+            return
+        for idx, term in slots.items():
+            try:
+                sym = eval_term(prog.ctx, term, inp)
+            except EvalError:
+                continue
+            except Exception as e:
+                prog.notes.append({"encoder-validation-skip": str(e)[:100]})
+                continue
+            if idx < len(real) and differs(real[idx], sym, tol=1e-7):
+                prog.stats.errors.append(
+                    f"ENCODER MISMATCH {view.backend}.{fn}[{idx}]: symbolic {float(sym)!r} vs real {real[idx]!r} at {inp} "
+                    f"(program {prog.pid})")
+        prog.stats.second_opinion += 0
+    prog.notes.append({"encoder_validated": f"{view.backend}.{fn}"})
